@@ -256,16 +256,44 @@ def finish(run: Run, prove_res, level_note=""):
           f"violations={len(run.violations)} wall={wall:.1f}s exit={code}")
     return code
 
+WATCHDOG = {}
+
+class Abort(BaseException):
+    """raised to stop a check early once the verdict is settled (e.g. several calls into the implementation do not return)"""
+
 def batch_tie(run: Run, label, cases, req, impl, parse, compare, tol=1e-9):
     """generic tie: for each case run the implementation and the model, compare; returns list of
     (case, impl_result, model_result)"""
     import model as M
     impl_res = []
+    import signal
+    class _CallTimeout(BaseException): pass
+    def _on_alarm(signum, frame): raise _CallTimeout()
+    can_alarm = hasattr(signal, "SIGALRM") and __import__("threading").current_thread() is __import__("threading").main_thread()
+    budget = int(os.environ.get("VERIF_CALL_TIMEOUT", "60"))
+    n_timeouts = 0
     for c in cases:
+        if WATCHDOG.get("deadline") and time.time() > WATCHDOG["deadline"]:
+            run.violation(f"{label}: the check did not finish in time; calls into the implementation are far slower than on the unchanged tree or do not return", c)
+            raise Abort()
+        old_h = signal.signal(signal.SIGALRM, _on_alarm) if can_alarm else None
         try:
+            if can_alarm: signal.alarm(budget)
             impl_res.append(impl(c))
+        except _CallTimeout:                            # the call does not return: a failure of the implementation on this input
+            impl_res.append({"harness_error": f"no result within {budget} s (the call does not return)", "tb": ""})
+            n_timeouts += 1
+            run.violation(f"{label}: no result within {budget} s - the call does not return", c)
+            if n_timeouts >= 3:
+                if can_alarm: signal.alarm(0)
+                raise Abort()
         except Exception as ex:                         # harness error, not an implementation verdict
             impl_res.append({"harness_error": repr(ex), "tb": traceback.format_exc()[-800:]})
+        finally:
+            if can_alarm:
+                signal.alarm(0); signal.signal(signal.SIGALRM, old_h)
+                if WATCHDOG.get("deadline"):        # re-arm the check-wide watchdog
+                    signal.alarm(max(1, int(WATCHDOG["deadline"] - time.time())))
     try:
         replies = M.run_batch([req(c) for c in cases])
     except Exception as ex:
